@@ -600,6 +600,8 @@ vbi3_raw_decoder_decode		(vbi3_raw_decoder *	rd,
 	vbi_sliced *sliced_end;
 	unsigned int i;
 
+	VERIF_REGION("rd.jobs", 1); /* reads jobs, updates pattern */
+
 	if (!rd->services)
 		return 0;
 
@@ -647,6 +649,8 @@ void
 vbi3_raw_decoder_reset		(vbi3_raw_decoder *	rd)
 {
 	assert (NULL != rd);
+
+	VERIF_REGION("rd.jobs", 1);
 
 	if (rd->pattern) {
 		vbi_free (rd->pattern);
@@ -720,6 +724,8 @@ vbi3_raw_decoder_remove_services
 	unsigned int job_num;
 
 	assert (NULL != rd);
+
+	VERIF_REGION("rd.jobs", 1);
 
 	job = rd->jobs;
 	job_num = 0;
@@ -909,6 +915,8 @@ vbi3_raw_decoder_add_services	(vbi3_raw_decoder *	rd,
 	double min_offset;
 
 	assert (NULL != rd);
+
+	VERIF_REGION("rd.jobs", 1);
 
 	services &= ~(VBI_SLICED_VBI_525 | VBI_SLICED_VBI_625);
 
@@ -1198,6 +1206,8 @@ vbi3_raw_decoder_set_sampling_par
 
 	assert (NULL != rd);
 	assert (NULL != sp);
+
+	VERIF_REGION("rd.jobs", 1);
 
 	services = rd->services;
 
